@@ -121,3 +121,34 @@ rotate_right!(std_spec_rotate_right_u16, u16);
 rotate_right!(std_spec_rotate_right_u32, u32);
 rotate_right!(std_spec_rotate_right_u64, u64);
 rotate_right!(std_spec_rotate_right_u128, u128);
+
+/// `assume_specification[BB::rotate_left]` + `axiom_rotl` of verus/units/reader_copy_to.rs
+macro_rules! rotate_left {
+    ($name:ident, $w:ty) => {
+        #[kani::proof]
+        pub fn $name() {
+            let x: $w = kani::any();
+            let n: u32 = kani::any();
+            let j: u32 = kani::any();
+            const B: u32 = <$w>::BITS;
+            kani::assume(j < B && n <= B);
+            let r = x.rotate_left(n);
+            let src = (j + B - n) % B;
+            kani::assert(((r >> j) & 1) == ((x >> src) & 1), "OBS std_spec.rotate_left: bit j of rotate_left(x, n) is bit (j + BITS - n) mod BITS of x (n <= BITS)");
+            kani::cover!(n == B && j == 3, "std_spec.rotate_left reachable");
+        }
+    };
+}
+rotate_left!(std_spec_rotate_left_u16, u16);
+rotate_left!(std_spec_rotate_left_u32, u32);
+rotate_left!(std_spec_rotate_left_u64, u64);
+rotate_left!(std_spec_rotate_left_u128, u128);
+
+/// rewrite `Ord::min(n, x)` -> `if n <= x { n } else { x }` of verus/units/reader_copy_to.rs
+#[kani::proof]
+pub fn std_spec_ord_min_u64() {
+    let a: u64 = kani::any();
+    let b: u64 = kani::any();
+    kani::assert(Ord::min(a, b) == if a <= b { a } else { b }, "OBS std_spec.ord_min: Ord::min(a,b) = if a <= b { a } else { b }");
+    kani::cover!(a > b, "std_spec.ord_min reachable");
+}
